@@ -127,6 +127,11 @@ func zoneString(off int) string {
 }
 
 func driveC18(c *driverCtx) error {
+	// process history first: offsets outside the usual range (minutes and hours a lenient parser lets through) are
+	// parsed BEFORE the valid timestamps, so that whatever they leave behind in caches is there when those arrive
+	for _, z := range []string{"+00:64", "-04:94", "+23:99", "+99:99", "-00:60", "+24:00", "+01:60", "-12:75", "+14:00", "-11:59", "+00:01", "-00:01"} {
+		emitTimeParse(c, "prelude|odd-offset", "2006-01-02T13:37:42"+z)
+	}
 	// grammar-directed grid
 	years := []int{0, 1, 1969, 1970, 2000, 2024, 9999}
 	months := []int{1, 2, 6, 12}
